@@ -28,13 +28,15 @@ try:
             print(pid, "patch does not apply:", out[:300])
             continue
         t0 = time.time()
-        rc, out = sh("timeout 1800 bin/check %s --tier quick" % pid, extra={"VERIF_REPO": MUT})
-        lines = [l for l in out.split("\n") if l.startswith("VIOLATION") or l.startswith("KNOWN") or l.startswith(pid + " ")]
-        print(pid, "CAUGHT" if rc != 0 else "MISSED", [l[:200] for l in lines])
+        chk = pid[:3]
+        rc, out = sh("timeout 1800 bin/check %s --tier quick" % chk, extra={"VERIF_REPO": MUT})
+        lines = [l for l in out.split("\n") if l.startswith("VIOLATION") or l.startswith("KNOWN") or l.startswith(chk + " ")]
+        caught = rc != 0 and any(l.startswith("VIOLATION") for l in lines)
+        print(pid, "CAUGHT" if caught else "MISSED", [l[:200] for l in lines])
         if not patch:
             mp = "/verif/seeded/%s/meta.json" % pid
             m = json.load(open(mp)) if os.path.exists(mp) else {"property": pid}
-            m.setdefault("checks", {})[pid] = {"exit": rc, "lines": lines, "wall_s": round(time.time() - t0), "rerun": time.strftime("%Y-%m-%d")}
+            m.setdefault("checks", {})[chk] = {"exit": rc, "lines": lines, "wall_s": round(time.time() - t0), "rerun": time.strftime("%Y-%m-%d")}
             m["caught_by"] = [c for c, r in m["checks"].items() if r["exit"] != 0]
             json.dump(m, open(mp, "w"), indent=1)
 finally:
